@@ -167,6 +167,7 @@ class Contract:
             elif cur is not None:
                 self.sec[cur].append(ln)
         self.used = set()
+        self.tail = []
         self.expand()
     # ---- DSL: `== wrapper Name` expands to the low-level sections for the canonical unary wrapper
     def expand(self):
@@ -219,6 +220,9 @@ class Contract:
                'ensures[E3|%s] V::out(final(self).abs().0).is_some() ==> final(self).abs().1 =~~= %s_own_step(old(self).abs().1, V::out(final(self).abs().0).unwrap())' % (e3, snake)]
         upd += ['ensures[inv:%s|%s] %s' % (l, t, sub_self(e, 'final(self)')) for l, t, e in conj]
         self.sec['fn update'] = upd + self.sec.get('fn update', [])
+        # asserted before every non-silent exit of `update`, so that the trait-level contract follows from the labelled clauses
+        self.tail = [('proof { assert(%s); }' % sub_self(e, 'self'), 'inv:' + l, t) for l, t, e in conj]
+        self.tail.insert(0, ('proof { assert(V::out(self.abs().0).is_some() ==> self.abs().1 =~~= %s_own_step(old(self).abs().1, V::out(self.abs().0).unwrap())); }' % snake, 'E3', e3))
         self.sec['fn last'] = ['ensures[out|%s] r == %s_own_out(self.abs().1)' % (opts.get('out', ''), snake)] + self.sec.get('fn last', [])
     def _field(self, ln):
         m = re.match(r'\s*(\w+)\s*:\s*([^=]+?)\s*=\s*(.*)$', ln)
@@ -302,7 +306,7 @@ def inject_fn(em, module, vc, header, body, is_trait_impl, struct_name):
     hdr = re.sub(r'#\[[^\]]*\]\s*', '', header).strip()
     # named return value
     rm = re.search(r'->\s*(.+)$', hdr, flags=re.S)
-    if rm and not rm.group(1).strip().startswith('('):
+    if rm and not re.match(r'\(\w+\s*:', rm.group(1).strip()):
         hdr = hdr[:rm.start()] + '-> (r: %s)' % rm.group(1).strip()
     start_line = em.lineno() + 1
     em.add('    ' + hdr)
@@ -320,23 +324,41 @@ def inject_fn(em, module, vc, header, body, is_trait_impl, struct_name):
         le = vc.get('loopend %s %d' % (name, k))
         if le:
             inserts.append((c, ('TEXT', k, le)))
+    tail = vc.tail if (name == 'update' and is_trait_impl) else []
+    for k, m in enumerate(re.finditer(r'\breturn\b', body)):
+        rt = vc.get('return %s %d' % (name, k))
+        if rt:
+            inserts.append((m.start(), ('TEXT', k, rt)))
+        if tail and k >= 1:
+            inserts.append((m.start(), ('TAIL', k, '')))
     bt = vc.get('begin ' + name)
     if bt:
         inserts.append((0, ('TEXT', -1, bt)))
     et = vc.get('end ' + name)
+    has_ret = bool(rm)
+    tail_expr = has_ret and body.rstrip() and body.rstrip()[-1] != ';'
     if et:
-        inserts.append((len(body.rstrip()), ('END', -1, et)))
-    inserts.sort(key=lambda t: t[0])
+        if tail_expr:
+            inserts.append((last_stmt_start(body), ('TEXT', -1, et)))     # before the tail expression
+        else:
+            inserts.append((len(body.rstrip()), ('END', -1, et)))
+    if tail:
+        inserts.append((len(body.rstrip()), ('ENDTAIL', -1, '')))
+    prio = {'TEXT': 0, 'LOOP': 0, 'END': 0, 'TAIL': 1, 'ENDTAIL': 1}
+    inserts = [x for _, x in sorted(enumerate(inserts), key=lambda t: (t[1][0], prio[t[1][1][0]], t[0]))]
     em.add('    {')
     pos = 0
     for p, (kind, k, text) in inserts:
         chunk = body[pos:p]
-        if kind == 'END' and chunk.rstrip() and chunk.rstrip()[-1] not in ';}':
+        if kind in ('END', 'ENDTAIL') and chunk.rstrip() and chunk.rstrip()[-1] not in ';}':
             chunk = chunk.rstrip() + ';'
         if chunk.strip('\n') != '' or chunk.count('\n') > 1:
             em.add(chunk.strip('\n'))
         if kind == 'LOOP':
             emit_clauses(em, parse_clauses(text), module, '%s/loop%d' % (name, k), ('invariant', 'decreases'))
+        elif kind in ('TAIL', 'ENDTAIL'):
+            for tl, lab, tg in tail:
+                em.add(tl, dict(module=module, fn=name, kind='ensures', label=lab, tags=[t.strip() for t in tg.split(',') if t.strip()], text=tl))
         else:
             em.add(text)
         pos = p
@@ -346,6 +368,31 @@ def inject_fn(em, module, vc, header, body, is_trait_impl, struct_name):
     em.add('    }')
     em.fnspans.append((start_line, em.lineno(), module, name))
     return name
+
+def last_stmt_start(body):
+    """offset where the last top-level statement of a block body starts"""
+    i, n, start, last = 0, len(body), 0, 0
+    while i < n:
+        c = body[i]
+        if c == '"':
+            i = body.index('"', i + 1)
+        elif c in '({[':
+            j = match_close(body, i, c, {'(': ')', '{': '}', '[': ']'}[c])
+            if c == '{':
+                k = j + 1
+                while k < n and body[k] in ' \n\t': k += 1
+                if not body.startswith('else', k) and not (k < n and body[k] in '.;?)') :
+                    if body[start:j].strip():
+                        last = start
+                    start = j + 1
+            i = j
+        elif c == ';':
+            if body[start:i].strip(): last = start
+            start = i + 1
+        i += 1
+    if body[start:].strip():
+        last = start
+    return last
 
 def sha(s):
     return hashlib.sha256(s.encode()).hexdigest()[:16]
@@ -366,7 +413,7 @@ def process_file(em, path, report):
     applied = set(['M1', 'M2'])
     em.add('pub mod %s {' % stem)
     em.add('use vstd::prelude::*;\nuse vstd::view::View as SpecView;\nuse std::collections::VecDeque;\n'
-           'use crate::shim::*;\nuse crate::shim::View;\nuse crate::lem::*;\nuse crate::views::*;\n'
+           'use crate::shim::*;\nuse crate::shim::View;\nuse crate::lem::*;\nuse crate::alg::*;\nuse crate::views::*;\n'
            'broadcast use {crate::lem::group_lem, crate::shim::group_literals, crate::shim::group_shim};')
     pre = vc.get('pre')
     if pre: em.add(pre)
@@ -477,7 +524,7 @@ def build(out_path, only=None):
         stem = os.path.basename(p)[:-3]
         em.add('pub mod %s {' % stem)
         em.add('use vstd::prelude::*;\nuse vstd::view::View as SpecView;\nuse std::collections::VecDeque;\n'
-               'use crate::shim::*;\nuse crate::shim::View;\nuse crate::lem::*;\nuse crate::views::*;')
+               'use crate::shim::*;\nuse crate::shim::View;\nuse crate::lem::*;\nuse crate::alg::*;\nuse crate::views::*;')
         txt = open(p).read()
         base = em.lineno()
         for k, ln in enumerate(txt.split('\n')):
